@@ -153,7 +153,10 @@ func c08Load() {
 		r := world.NewPRNG(uint64(k))
 		ch := Change{T: t, K: 1, Marker: "desc " + t.Name}
 		in := CorpusFile{Name: "t.go", Data: MatchingFile(r, []Change{ch}, "canonical", "")}
-		ps = append(ps, c08Patch{Name: "template/" + t.Name, Data: []byte(ch.Text()), Inputs: []CorpusFile{in}})
+		// and a file that mentions the trigger without containing an instance
+		near := CorpusFile{Name: "near-" + t.Name + ".go", Data: NearMissFile(r, []Change{ch}, "canonical", "")}
+		ps = append(ps, c08Patch{Name: "template/" + t.Name, Data: []byte(ch.Text()), Inputs: []CorpusFile{in, near}})
+		c08Cache.inputs = append(c08Cache.inputs, near)
 	}
 	for _, m := range Misfits {
 		in := CorpusFile{Name: "t.go", Data: []byte("package sample\n\nfunc f() {\n\t" + m.Stmt(1) + "\n}\n")}
